@@ -2,7 +2,8 @@
    hand-written Bits/PrngModel.v.  Members are passed/returned explicitly: pcg (inc_, state_), mt (_ctr, _st). *)
 From Coq Require Import List NArith ZArith.
 From FV Require Import CxxLeaf.CxxSem Gen.Cxx_bits CxxLeaf.Tie_bits.
-From FV Require Bits.PrngModel.
+From FV Require Gen.Cxx_sort CxxLeaf.Tie_sort.
+From FV Require Bits.PrngModel Bits.SortModel.
 Import ListNotations.
 Local Open Scope N_scope.
 
@@ -50,4 +51,14 @@ Example TIE_mt_next_ex :
   match mt_seed 624 0%Z (repeat 0 624) 5489 with
   | Ok (c, st) => match mt_next 397 c st with Ok (r, c', _) => r = 3499211612 /\ c' = 1%Z | _ => False end
   | _ => False end.
+Proof. vm_compute. split; reflexivity. Qed.
+
+(* insertion_sort, instance int* / `<` (include/frg/algorithm.hpp; Gen/Cxx_sort.v): every int array, whole range *)
+Theorem TIE_insertion_sort : forall fuel (l : list Z), (2 * length l + 1 <= fuel)%nat ->
+  Cxx_sort.insertion_sort fuel l 0%Z (Z.of_nat (length l)) = Ok (SortModel.insertion_sort Tie_sort.lt l).
+Proof. exact Tie_sort.gen_insertion_sort_eq_model. Qed.
+Print Assumptions TIE_insertion_sort.
+(* as frg sorts: descending for `<` (a swap happens when the earlier element is smaller) *)
+Example TIE_insertion_sort_ex : Cxx_sort.insertion_sort 20 [3; -1; 4; 1; -5; 9]%Z 0%Z 6%Z = Ok [9; 4; 3; 1; -1; -5]%Z
+  /\ Cxx_sort.insertion_sort 20 [3; 1]%Z 0%Z 3%Z = UB UOutOfBounds.
 Proof. vm_compute. split; reflexivity. Qed.
